@@ -13,7 +13,7 @@
 
 #define OBJ ((int) sizeof (struct crypt_data))
 
-struct start { const char *name; int real; int recorded; };   /* real 0 = NULL pointer */
+struct start { const char *name; int real; int recorded; int cap; };   /* real 0 = NULL pointer; cap > 0: the heap has room behind the block, realloc grows it in place */
 static const struct start starts[] = {
   { "NULL,0", 0, 0 }, { "NULL,stale-40000", 0, 40000 }, { "NULL,negative", 0, -7 },
   { "exact", OBJ, OBJ }, { "larger-40000", 40000, 40000 }, { "larger-recorded-exact", 40000, OBJ },
@@ -21,6 +21,8 @@ static const struct start starts[] = {
   { "100-byte,true", 100, 100 }, { "100-byte,zero", 100, 0 }, { "100-byte,negative", 100, INT_MIN },
   { "sizeof-1,true", OBJ - 1, OBJ - 1 }, { "sizeof-1,zero", OBJ - 1, 0 }, { "sizeof-1,negative", OBJ - 1, -32768 },
   { "exact,recorded-zero", OBJ, 0 }, { "exact,recorded-negative", OBJ, -1 },
+  { "1-byte,true,grows-in-place", 1, 1, OBJ + 8192 }, { "24-byte,true,grows-in-place", 24, 24, OBJ + 8192 }, { "100-byte,zero,grows-in-place", 100, 0, OBJ + 8192 },
+  { "1000-byte,negative,grows-in-place", 1000, -1, OBJ + 8192 }, { "sizeof-1,true,grows-in-place", OBJ - 1, OBJ - 1, OBJ + 8192 }, { "sizeof-1,true,room-for-exactly-sizeof", OBJ - 1, OBJ - 1, OBJ },
 };
 #define NSTART ((int) (sizeof starts / sizeof *starts))
 
@@ -86,7 +88,7 @@ make_start (int si)
   if (starts[si].real)
     {
       vh_seam_armed = 1;
-      data = malloc ((size_t) starts[si].real);
+      data = starts[si].cap ? vh_inplace_alloc ((size_t) starts[si].real, (size_t) starts[si].cap) : malloc ((size_t) starts[si].real);
       vh_seam_armed = 0;
       memset (data, 0x6B, (size_t) starts[si].real);     /* previous user's residue */
     }
@@ -308,7 +310,7 @@ apply (int op, int check, const char *trace, int si)
         why = "live block count wrong after growth (leak or lost block)";
       else
         {
-          /* zero-initialised after growth: everything outside the output field */
+          /* zero-initialised after growth: everything outside the output field, and the output field behind its string */
           const unsigned char *p = data;
           for (size_t i = sizeof (((struct crypt_data *) 0)->output); i < (size_t) OBJ; i++)
             if (p[i])
@@ -316,6 +318,9 @@ apply (int op, int check, const char *trace, int si)
                 why = "grown block is not zero-initialised outside the output field";
                 break;
               }
+          for (size_t i = strnlen ((const char *) p, sizeof (((struct crypt_data *) 0)->output)); !why && i < sizeof (((struct crypt_data *) 0)->output); i++)
+            if (p[i])
+              why = "grown block is not zero-initialised behind the string in the output field";
         }
     }
   if (!why && vh_bad_free != badfree_before)
